@@ -809,6 +809,11 @@ def malform(rng, d):
     d = copy.deepcopy(d)
     objs = [p for p, k in paths_of(d, [], []) if k == "dict" and not (set(map(str, p)) & OPAQUE) and not any(str(x).startswith("x_") for x in p)
             and "_ui" not in p]
+    if d.get("groups") and rng.random() < 0.15:
+        # not a fault of structure: a group that is referenced (or not) but missing from the top-level list;
+        # validate() must add every referenced group at the end of the list (model and code must agree)
+        del d["groups"][rng.randrange(len(d["groups"]))]
+        return "unlisted_group", d
     for _ in range(20):
         kind = rng.choice(["drop_key", "drop_key", "add_key", "dangling", "bad_type", "uuid_clash", "null_uuid"])
         p = rng.choice(objs)
@@ -1002,7 +1007,8 @@ def run(ctx):
         "contact-field references, top-level groups with and without query/status/system/count, categories shared "
         "by cases, all node kinds, 0..8 nodes, _ui positions, campaigns with M/F events, triggers in new/keywords-only/legacy form, "
         "exits shared by two categories, shuffled key order), 30% with the input classes of the open findings (default "
-        "category not last, exits not in category order), 15% malformed (one structural fault). "
+        "category not last, exits not in category order), 15% malformed (one structural fault, or a group missing from the "
+        "top-level list). "
         "Each valid document: oracle render(load d) vs norm d field by field + idempotence + input untouched on the implementation; "
         "every document: extracted model vs implementation on the full output. non-trivial = distinct set of construct kinds "
         "(node/action/trigger/event kinds, optional-field situations) of a document with at least one node")
